@@ -563,7 +563,11 @@ def boundary_ranges(rng, o, n):
         return rng.choice(bs) + rng.choice([-1, 0, 0, 1])
     while len(out) < n:
         c = rng.random()
-        if c < 0.5:
+        if c < 0.22:
+            # one-second window at / next to a boundary second: "is second b+d inside?"
+            a = rng.choice(bs) + rng.choice([-2, -1, -1, 0, 0, 1])
+            r = [a, a + 1]
+        elif c < 0.5:
             a, b = pick(), pick()
             if a > b and rng.random() < 0.8:
                 a, b = b, a
@@ -684,3 +688,18 @@ def fb_periods(body):
         ty = getattr(vfb, "fbtype", None)
         out.append((int((a - EPOCH).total_seconds()), int((b - EPOCH).total_seconds()), ty.value if ty else "BUSY"))
     return sorted(out)
+
+
+def probe_ranges(o, extra_points=()):
+    """exhaustive probes for the failing-input search: one-second windows and half-open ranges at and around every
+    boundary second of the object (and of the ranges the implementation actually produced)."""
+    pts = set(boundaries(o)) | set(p for p in extra_points if isinstance(p, int))
+    out = []
+    for b in sorted(pts):
+        for d in (-2, -1, 0, 1):
+            out.append([b + d, b + d + 1])
+        out.append([b, None])
+        out.append([b + 1, None])
+        out.append([None, b])
+        out.append([None, b + 1])
+    return out
